@@ -67,6 +67,15 @@ REQUIRED_GUARD_RELATIONS = {
     ],
 }
 
+# keys a relation's decision may additionally depend on (with the reason)
+RELATION_MAY_ALSO_DEPEND_ON = {
+    # the bundle-fits-in-duct test needs the pin lattice, which a
+    # low-fidelity assembly does not build
+    ('DASSH_Input.check_pin', frozenset(
+        {'duct_ftf', 'num_rings', 'pin_pitch', 'pin_diameter',
+         'wire_diameter'})): {'use_low_fidelity_model'},
+}
+
 # R3: definite-assignment reports that are infeasible paths (one line each)
 DA_INFEASIBLE = {
     ('dassh.__main__:run_dassh', 'workers'):
@@ -476,6 +485,8 @@ def r2(ctx):
                     per_sink.append(_influence_keys(fi, ex, {nm: v}))
             else:
                 per_sink.append(ks)
+        ctx.extra.setdefault('guard_decisions', {})[qual] = [
+            sorted(ks) for ks in per_sink]
         for rel in REQUIRED_GUARD_RELATIONS.get(qual, []):
             ctx.require(any(rel <= ks for ks in per_sink), 'C18.R2', fi,
                         fi.node, 'no single rejection decision in %s examines '
@@ -483,6 +494,22 @@ def r2(ctx):
                         'was removed or rewired)' % (qual, sorted(rel)),
                         key='%s | relation %s' % (fi.full,
                                                   ','.join(sorted(rel))))
+            # ... and that decision is not made to depend on further input
+            # keys (an option that switches the rejection off for some
+            # assemblies), beyond the ones frozen for it
+            allowed = RELATION_MAY_ALSO_DEPEND_ON.get(
+                (qual, frozenset(rel)), set())
+            cands = [ks for ks in per_sink if rel <= ks]
+            if cands:
+                extra = min(({k for k in ks if not k[:1].isupper()} - rel
+                             - allowed for ks in cands), key=len)
+                ctx.require(not extra, 'C18.R2', fi, fi.node,
+                            'the rejection decision of %s on %s now also '
+                            'depends on %s: inputs violating the relation are '
+                            'accepted whenever that key switches the check '
+                            'off' % (qual, sorted(rel), sorted(extra)),
+                            key='%s | relation %s unconditional'
+                            % (fi.full, ','.join(sorted(rel))))
         missing = sorted(need - got)
         ctx.require(not missing, 'C18.R2', fi, fi.node,
                     'input key(s) %s no longer influence any error decision '
